@@ -15,6 +15,7 @@
 package middleware
 
 import (
+	"fmt"
 	"net/http"
 	"reflect"
 
@@ -111,6 +112,15 @@ func (o *UntypedRequestBinder) Bind(request *http.Request, routeParams RoutePara
 					plain[i] = target.Index(i).String()
 				}
 				value = plain
+				// the validators do not check the format of array items either: an item that is no literal of
+				// its declared format is refused here, like a scalar of that format
+				if items := param.Items; items != nil && items.Format != "" && o.Formats != nil && o.Formats.ContainsName(items.Format) {
+					for i, item := range plain {
+						if !o.Formats.Validates(items.Format, item) {
+							result = append(result, errors.InvalidType(fmt.Sprintf("%s.%d", param.Name, i), param.In, items.Format, item))
+						}
+					}
+				}
 			}
 			rr := binder.validator.Validate(value)
 			if rr != nil && rr.HasErrors() {
